@@ -37,6 +37,10 @@ QUICK = [
     # the caller of terminate() loses patience while the server is still forcing its children one by one
     dict(mode='terminate', children=[['swallow', False, False], ['swallow', False, False], ['swallow', False, False], ['coop', False, False]], server_timeout=1.5),
     dict(mode='terminate', children=[['swallow', False, False], ['swallow', True, True], ['idle', False, True], ['swallow', False, False]], server_timeout=1.2),
+    # workers whose client crashed while they were running; other clients come and go afterwards; then the server is stopped
+    dict(mode='terminate', children=[['coop', False, False]], orphans=['swallow', 'coop'], late_clients=2),
+    dict(mode='sigterm', children=[], orphans=['coop'], late_clients=1),
+    dict(mode='terminate', children=[['idle', True, True]], orphans=['swallow'], late_clients=0),
     # the server is stopped while workers are still inside the start-up handshake
     dict(mode='terminate', children=[['coop', False, False]], starting=2, delay=0.2),
     dict(mode='sigterm', children=[['idle', False, True]], starting=1, delay=0.2),
@@ -166,7 +170,7 @@ def main(tier, seed, replay=None):
             outs[i] = run_scenario(cfg)
     terms, keep = [], []
     for cfg, out in zip(cfgs, outs):
-        steady = cfg.get('delay') is None and not cfg.get('starting')
+        steady = cfg.get('delay') is None and not cfg.get('starting') and not cfg.get('orphans')
         res.count('mode:' + cfg['mode']); res.count('steady' if steady else 'racing'); res.count(f'children:{len(cfg["children"])}')
         for c in cfg['children']:
             res.count('state:' + c[0] + (':ctx' if c[1] else ''))
